@@ -664,6 +664,13 @@ class Repo(object):
                 if fn.attr in ('keys', 'values', 'items'):
                     r = list(r)
                 return r
+            if isinstance(fn, ast.Name) and not (env and fn.id in env):
+                # a module-level function that only returns an expression of its parameters and of module
+                # constants (``def _fill(src): return src.replace(MARK, BLOCK)``) folds to that expression
+                kind, m, obj = self.resolve(mod, fn.id)
+                if kind == 'func' and m is not None and not any(isinstance(a, ast.Starred) for a in expr.args) \
+                        and all(k.arg for k in expr.keywords):
+                    return self._fold_call(obj, [f(a) for a in expr.args], dict((k.arg, f(k.value)) for k in expr.keywords), depth)
             raise Unfoldable('call %s' % norm(fn))
         if isinstance(expr, ast.Subscript):
             v = f(expr.value)
@@ -754,6 +761,39 @@ class Repo(object):
             if keep:
                 for e3 in self._comp_envs(gens[1:], mod, e2, depth, sym, budget):
                     yield e3
+
+    def _fold_call(self, fi, args, kwargs, depth):
+        """Value of a call of the straight-line function ``fi`` (docstring, ``name = expr`` lines, one final
+        ``return expr``; no decorators, no * / ** parameters) on folded arguments.  Raises Unfoldable."""
+        fn = fi.node
+        a = fn.args
+        if not isinstance(fn, ast.FunctionDef) or fn.decorator_list or a.vararg or a.kwarg or fi.cls is not None:
+            raise Unfoldable('call %s' % fi.qualname)
+        params = [x.arg for x in a.posonlyargs + a.args]
+        if len(args) > len(params):
+            raise Unfoldable('call %s: arity' % fi.qualname)
+        env = dict(zip(params, args))
+        for k, v in kwargs.items():
+            if k in env or k not in params + [x.arg for x in a.kwonlyargs]:
+                raise Unfoldable('call %s: keyword %s' % (fi.qualname, k))
+            env[k] = v
+        defaults = dict(zip(params[len(params) - len(a.defaults):], a.defaults))
+        defaults.update((x.arg, d) for x, d in zip(a.kwonlyargs, a.kw_defaults) if d is not None)
+        for p in params + [x.arg for x in a.kwonlyargs]:
+            if p not in env:
+                if p not in defaults:
+                    raise Unfoldable('call %s: missing %s' % (fi.qualname, p))
+                env[p] = self.fold(defaults[p], fi.mod, None, depth + 1)
+        body = list(fn.body)
+        if body and isinstance(body[0], ast.Expr) and isinstance(body[0].value, ast.Constant) and isinstance(body[0].value.value, str):
+            body = body[1:]
+        if not body or not isinstance(body[-1], ast.Return) or body[-1].value is None:
+            raise Unfoldable('call %s: not a straight-line function' % fi.qualname)
+        for st in body[:-1]:
+            if not (isinstance(st, ast.Assign) and len(st.targets) == 1 and isinstance(st.targets[0], ast.Name)):
+                raise Unfoldable('call %s: not a straight-line function' % fi.qualname)
+            env[st.targets[0].id] = self.fold(st.value, fi.mod, env, depth + 1)
+        return self.fold(body[-1].value, fi.mod, env, depth + 1)
 
     def try_fold(self, expr, mod, default=None):
         try:
